@@ -45,8 +45,8 @@ def cosim_drivers(exclude=()):
                 out.append({"name": "corpus-" + sc[:-7], "trace": "c.trace", "exclude_fields": exclude,
                             "cmd": [os.path.join(HB, "cosim"), "-replay", os.path.join(corpus, sc)]})
         out.append({"name": "cosim", "trace": "cosim.trace", "exclude_fields": exclude, "timeout": 3000,
-                    "cmd": [os.path.join(HB, "cosim"), "-seed", str(ctx.seed), "-traces", "40" if quick else "600",
-                            "-steps", "120" if quick else "250", "-maxtime", "10m" if quick else "45m"]})
+                    "cmd": [os.path.join(HB, "cosim"), "-seed", str(ctx.seed), "-traces", "108" if quick else "900",
+                            "-steps", "150" if quick else "250", "-maxtime", "10m" if quick else "60m"]})
         return out
     return f
 
@@ -56,7 +56,7 @@ COSIM_RULE = ("lock-step co-simulation: real *Raft nodes (real raft.go, real fil
               "election timer, heartbeat, submit, snapshot, crash, crash after k storage writes, restart) the complete observable "
               "state of every node, every in-flight RPC with request and response, every resolved future and every FSM apply stream "
               "is compared with the extracted Coq model; monitors for the property run on the implementation's observations; "
-              "corpus witnesses (one script per repaired defect) run first; families normal/lossy/delay/crash/snapshot/timed/bigsnap (snapshot payloads of 1-3 chunks)/member (add, promote, demote, remove servers incl. the leader; a spare server); when the default order of the goroutines woken by a label does not reproduce the observation, the other orders of the model's internal labels are tried (SCHEDULES line); clusters of 1-5 voters. "
+              "corpus witnesses (one script per repaired defect) run first; families normal/lossy/delay/crash/snapshot/timed/bigsnap (snapshot payloads of 1-3 chunks)/member (add, promote, demote, remove servers incl. the leader; a spare server)/memberx (the same over a lossy network with frequent elections, snapshots and crashes, so that changes stay pending); when the default order of the goroutines woken by a label does not reproduce the observation, the other orders of the model's internal labels are tried (SCHEDULES line); clusters of 1-5 voters. "
               "evaluations = labels executed; distinct_nontrivial = distinct (step, label) pairs sampled from the traces")
 COSIM_ASSUME = ["each lock-held section of raft.go is atomic (mutex discipline: C20, not checked)",
                 "observations are taken when every goroutine of the library is blocked (quiescence read from runtime.Stack)",
